@@ -12,5 +12,6 @@ import BigtoolsModel.AtomsZL
 import BigtoolsModel.AtomsRB
 import BigtoolsModel.AtomsTB
 import BigtoolsModel.AtomsBytes
+import BigtoolsModel.AtomsSearch
 /-! Umbrella: the obligations on the expressions regenerated from the Rust source, one module per group (`Atoms*.lean`), so that a
     property depends only on the groups its theorems use. -/
